@@ -1756,3 +1756,15 @@ mod tests {
 
 
 }
+/// Verification hook: a public wrapper around the crate-private `BaseConverter`
+/// (only compiled with `--features verif`).
+#[cfg(feature = "verif")]
+pub struct VerifBaseConverter(BaseConverter);
+
+#[cfg(feature = "verif")]
+#[allow(missing_docs)]
+impl VerifBaseConverter {
+    pub fn new(ibase: &RNSBase, obase: &RNSBase) -> Self { Self(BaseConverter::new(ibase, obase)) }
+    pub fn fast_convert_array(&self, input: &[u64], output: &mut [u64]) { self.0.fast_convert_array(input, output) }
+    pub fn exact_convey_array(&self, input: &[u64], output: &mut [u64]) { self.0.exact_convey_array(input, output) }
+}
